@@ -4,23 +4,23 @@ import json, os
 root = os.path.join(os.path.dirname(os.path.abspath(__file__)), "..")
 TECH = "bounded symbolic execution of the real go/ssa (symgo) + SMT (z3 QF_BV), counterexamples replayed natively"
 claimed = {
- "C01": ("correlator histories (K ops, S sessions, L logins) with symbolic PIDs/session ids/record types; ghost model predicts every emission; identity of each UserAction asserted after every step", "§4 C01"),
+ "C01": ("correlator histories (K ops, S sessions, L logins) with symbolic PIDs/session ids/record types; ghost model predicts every emission; identity of each UserAction asserted after every step, an emission with no login of the opening PID available is a violation; LOGIN records carry a symbolic old-ses field", "§4 C01, §10.7"),
  "C02": ("same histories; per-step equality of the emitted list with the ghost's (count and order), including the flush of held events at every login position", "§4 C02"),
  "C04": ("histories without the audit-side well-formedness assumptions (empty/unset session, non-LOGIN openers, foreign PIDs, events after the end); nothing emitted unless correlated, checked after every step", "§4 C04"),
  "C05": ("accepted key/cert/password lines with symbolic fields and PID digits, symbolic write fault, four correlator/cancellation modes with every interleaving of processor, receiver and canceller", "§4 C05"),
  "C06": ("21 message forms as templates over one symbolic line (symbolic field boundaries and contents); Go's regexp encoded from the real syntax.Prog; one obligation per form and field", "§4 C06"),
- "C10": ("one SSH session (accepted login line + LOGIN, USER_START, CRED_DISP records) through the real cmd.RunNamedPipe with both pipes, the login line at every position relative to the records and both write groupings; every event reaches the shared writer exactly once and the UserLogin precedes every UserAction carrying its identity, in every explored schedule; torn lines at file level are an assumption (one Write per Encode, O_APPEND)", "§4 C10, §10.4"),
- "C11": ("fully symbolic line and 14 keyword+symbolic-tail lines with a symbolic PID token; no panic, nil error, at most one event, logins only with success, every extracted value a window of the input or a placeholder", "§4 C11"),
+ "C10": ("one SSH session (accepted login line + LOGIN, USER_START, CRED_DISP records) through the real cmd.RunNamedPipe with both pipes, the login line at every position relative to the records and both write groupings; every event reaches the shared writer exactly once and the UserLogin precedes every UserAction carrying its identity, in every explored schedule (quick: canonical schedule, thorough: at most one departure from it), for each of the four accepted-login forms; every hand-off order between the real sshd processor and the real session tracker sharing one writer (event writes are schedule points; preemption bound 2/3); one write per message for each of the 23 sshd message forms; torn lines at file level are an assumption (one Write per Encode, O_APPEND)", "§4 C10, §10.4, §10.7"),
+ "C11": ("fully symbolic line and 14 keyword+symbolic-tail lines with a symbolic PID token; no panic, nil error, at most one event, logins only with success, every extracted value a window of the input or a placeholder; at the syslog ingester, PID token and message handed over are windows of the line for any bytes", "§4 C11, §10.7"),
  "C12": ("real bufio over a FIFO model: stream of T symbolic bytes, every partition into writes, callback error at every record index; callbacks equal the terminated records", "§4 C12"),
- "C14": ("symbolic coalesced event (result string, timestamp, summary, 0..2 args) rendered through the real tracker; field-by-field equality and non-aliasing of the stored login", "§4 C14"),
+ "C14": ("symbolic coalesced event (result string, timestamp, summary, 0..2 args) rendered through the real tracker; field-by-field equality and non-aliasing of the stored login; SYSCALL(+EXECVE)+CWD record groups through the real reassembler callback (outcome, arguments, session, timestamp)", "§4 C14, §10.7"),
  "C17": ("the three messages with a client-chosen user name: user = any bytes but newline; recorded address/port equal the appended ones", "§4 C17"),
  "C18": ("sequential histories of register/ready/request over three names; request racing with a registration and a ready-mark; WaitForReady against ready-mark/cancel with an environment-driven ticker", "§4 C18"),
  "C19": ("the C06 and C11 harnesses with the counter observation log: exactly one increment under the matching labels per emitted UserLogin, none for lines without a keyword", "§4 C19"),
  "C03": ("four concurrent programs (login || LOGIN record + event || events of another session || both cleanups) with symbolic PIDs; every interleaving at lock-acquisition granularity within a preemption bound; the observation must equal that of some sequential order, computed on fresh trackers; no delivery may block forever", "§4 C03"),
  "C07": ("'<pid> <pad><message>\\n' with symbolic bytes through the real named-pipe and syslog ingesters reaches the processor as exactly (pid, message); audit record lines with symbolic digits/tail parse identically with and without the newline through parseAuditLogs, go-libaudit's parser and reassembler", "§4 C07"),
- "C08": ("the real cmd.RunNamedPipe (flag parsing, worker wiring, errgroup) executed in the engine with both pipes as FIFO models; seven failure causes (either pipe at end-of-stream, unparsable audit line, either path not a named pipe, termination signal idle / after traffic); the daemon function must return, with a non-nil error, in every explored schedule", "§4 C08, §10.4"),
+ "C08": ("the real cmd.RunNamedPipe (flag parsing, worker wiring, errgroup) executed in the engine with both pipes as FIFO models; eleven failure causes (either pipe at end-of-stream, unparsable audit line, either path not a named pipe, termination signal idle / after traffic / before the writers attach, worker failure while the other pipe has no writer yet); the daemon function must return - with a non-nil error for worker failures - in every explored schedule (quick: canonical schedule, thorough: at most two departures from it)", "§4 C08, §10.4, §10.7"),
  "C09": ("two sessions opened by one symbolic PID one after the other, each login line at any position, stray late records; map iteration order is a decision; ghost model per generation", "§4 C09"),
- "C13": ("nine blocking states (pipe waiting for a writer / idle / between records, audit ingester with a full channel of capacity 0,1,2 directly and through its pipe, login hand-off to a never-ready correlator, idle audit processor); cancellation after quiescence; every schedule within the preemption bound must let the worker return and deliver nothing afterwards", "§4 C13"),
+ "C13": ("blocking states (pipe waiting for a writer / idle / between records / after its writer went away, audit ingester with a full channel of capacity 0,1,2 directly and through its pipe, login hand-off to a never-ready correlator, idle audit processor); cancellation after quiescence; every schedule within the preemption bound must let the worker return and deliver nothing afterwards", "§4 C13"),
  "C15": ("parseAuditLogs with go-libaudit's real parser and reassembler behind it: K lines (well-formed / empty / malformed at any position) yield one event per well-formed line in order or an error naming the line; two compound events in every interleaving of their records are grouped by sequence; Auditd.Read returns the correlator's and the parser's errors", "§4 C15"),
  "C16": ("correlator histories with both cleanup calls at symbolic cut-offs placed anywhere, symbolic login times and clock readings; what is emitted afterwards must follow the window rule (survivors still correlate, discarded halves never emit late)", "§4 C16"),
  "C20": ("sortLogNamesOldToNew on symbolic rotation suffixes; rotatingFile.read on an in-memory file system under append/fragment/newline/rotate/truncate histories with symbolic bytes", "§4 C20"),
